@@ -14,7 +14,10 @@ THEOREMS = ['C07_frame_conformant', 'C07_header_roundtrip', 'C07_header_bytes', 
             "C07_frame_conformant_indep_discharged",
             "C07_frame_conformant_fast_stream_discharged",
             "C07_frame_conformant_hc_stream_discharged",
-            "C07_frame_conformant_mid_stream_discharged"]
+            "C07_frame_conformant_mid_stream_discharged",
+            "C07_parser_bytes_mid", "C07_parser_bytes_chain", "C07_parser_bytes_opt",
+            "C07_blk_bytes_unguarded_indep", "C07_blk_bytes_unguarded_fast_stream", "C07_blk_bytes_unguarded_mid_stream",
+            "C07_blk_bytes_unguarded_hc_stream", "C07_blk_bytes_unguarded_blk_of"]
 ORACLES = ["framec"]
 CORRESPONDENCE = [
     "FrameC model == LZ4F_compressBegin*/compressUpdate/uncompressedUpdate/flush/compressEnd (return value and every output byte of every call)",
